@@ -151,6 +151,11 @@ def run_c19(ctx, spec, out):
                   "GET hosts\nStats: comments >= 1\nStats: downtimes >= 1\nOutputFormat: json\n\n",
                   "GET services\nColumns: host_name description\nFilter: comments != \nFilter: downtimes != \nOr: 2\nOutputFormat: wrapped_json\n\n",
                   "GET hosts\nColumns: name\nFilter: name =~ %s\nOutputFormat: wrapped_json\n\n" % rng.choice(["HOST_1", "web1", "ÜBER", "zeta"])]
+        # the columns only some backends have (they depend on what each backend can do): every backend's own set has to
+        # make it through the export
+        for tname, keys in (("hosts", "name"), ("services", "host_name description"), ("contacts", "name")):
+            ocols = [c["name"] for c in schema.cols(tname) if c.get("optional") and c["storage"] == "LocalStore"]
+            texts.append("GET %s\nColumns: peer_key %s %s\nOutputFormat: wrapped_json\n\n" % (tname, keys, " ".join(ocols)))
         first = []
         for text in texts:
             n += 1
@@ -694,6 +699,9 @@ def run_c11(ctx, spec, out):
         wb, flags = small_world(rng, schema, {"nhosts": [1, 2, 3], "flavour": (flavour, flags)})
         cfg = {"update_interval": 5, "max_parallel_peer_connections": 1, "backend_keepalive": False, "idle_timeout": 1000000,
                "stale_backend_timeout": rng.choice([20, 60, 100000])}
+        if rng.random() < 0.35:
+            # every table is fetched as a whole now and then: hosts and services notice a changed number of objects too
+            cfg["full_update_interval"] = rng.choice([20, 60, 130])
         h = History(schema, nid)
         hs = History(schema, 0)
         for hh in (h, hs):
@@ -703,6 +711,8 @@ def run_c11(ctx, spec, out):
         h.both({"op": "init", "peer": pid}, "state")
         pstart = 1700000000
         pidn = 4242
+        replaced = False
+        grew = False
         for rd in range(rng.choice([2, 3, 5])):
             r = rng.random()
             changes = []
@@ -711,14 +721,34 @@ def run_c11(ctx, spec, out):
                 pstart += rng.choice([10, 100])
                 pidn += 1
                 wb2, _ = small_world(rng, schema, {"nhosts": [0, 1, 2, 4], "flavour": (flavour, flags)})
+                replaced = True
                 for t in ("hosts", "services", "hostgroups", "servicegroups", "comments", "downtimes"):
                     changes.append({"table": t, "replace": wb2["tables"][t]["rows"]})
                 changes.append({"table": "status", "key": {}, "set": {"program_start": pstart, "nagios_pid": pidn}})
             elif r < 0.85:
                 # object count changes without restart: add a contact / remove a host group / add a timeperiod
                 # only tables that are refreshed as a whole (every full minute) notice a changed number of objects
-                c = rng.choice(["hostgroup", "timeperiod"])
-                if c == "contact":
+                c = rng.choice(["hostgroup", "timeperiod", "host", "service", "droplast"] if not replaced and (cfg.get("full_update_interval") or rng.random() < 0.3) else ["hostgroup", "timeperiod"])
+                hrows = wb["tables"]["hosts"]["rows"]
+                srows = wb["tables"]["services"]["rows"]
+                if c == "host" and hrows:
+                    # a core that takes a new object without a restart (Icinga 2 does): hosts / services see it at their next
+                    # fetch of the whole table, the delta scan sees more objects than cached
+                    row = json.loads(json.dumps(hrows[-1]))
+                    row["name"] = "zz-new%d" % rd
+                    changes.append({"table": "hosts", "add": row})
+                elif c == "service" and srows:
+                    row = json.loads(json.dumps(srows[-1]))
+                    row["description"] = "zz new %d" % rd
+                    changes.append({"table": "services", "add": row})
+                elif c == "droplast" and srows:
+                    last = srows[-1]
+                    changes.append({"table": "services", "key": {"host_name": last["host_name"], "description": last["description"]}, "remove": True})
+                elif c in ("host", "service", "droplast"):
+                    c = "hostgroup"
+                if c in ("host", "service", "droplast"):
+                    grew = True
+                elif c == "contact":
                     cols = worldgen.table_columns(schema, "contacts", flags)
                     row = {col["name"]: json.loads(json.dumps(worldgen.DEFAULTS[col["dtype"]])) for col in cols}
                     row.update({"name": "new%d" % rd, "alias": "New"})
@@ -751,8 +781,9 @@ def run_c11(ctx, spec, out):
                     hh.both({"op": "advance", "seconds": 5})
             h.both({"op": "tick", "peer": pid}, "state")
             observe_queries(h, schema, wb, flags, ["hosts", "services", "contacts"])
-        # recovery: two update rounds (the second one at the next full minute)
-        for d in (5, 61, 5):
+        # recovery: two update rounds (the second one at the next full minute); a backend that was flagged broken for a grown
+        # hosts / services table and did not restart is synchronised again when the grace time (300 s) is over
+        for d in (5, 61, 5) + ((310, 5, 61, 5) if grew else ()):
             for hh in (h, hs):
                 hh.both({"op": "advance", "seconds": d})
             h.both({"op": "tick", "peer": pid}, "state")
